@@ -12,20 +12,16 @@ package controllers
 // No judgement happens here.
 
 import (
-	"bufio"
 	"encoding/json"
 	"fmt"
 	"os"
 	"reflect"
-	"runtime"
 	"strconv"
-	"sync"
 	"testing"
 
 	v1beta1 "go.universe.tf/metallb/api/v1beta1"
 	v1beta2 "go.universe.tf/metallb/api/v1beta2"
 	"go.universe.tf/metallb/internal/config"
-	kit "go.universe.tf/metallb/internal/verifkit"
 	corev1 "k8s.io/api/core/v1"
 	metav1 "k8s.io/apimachinery/pkg/apis/meta/v1"
 )
@@ -304,44 +300,28 @@ func vLoadRun(sc vLoadScen, dom vLoadDom) (o vLoadObs) {
 func TestVerifConfigLoad(t *testing.T) {
 	var dom vLoadDom
 	b, err := os.ReadFile(os.Getenv("VERIF_DOMAIN"))
-	kit.Must(err)
-	kit.Must(json.Unmarshal(b, &dom))
-	f, err := os.Open(os.Getenv("VERIF_SCENARIOS"))
-	kit.Must(err)
-	defer f.Close()
+	vMust(err)
+	vMust(json.Unmarshal(b, &dom))
 	var scens []vLoadScen
-	scn := bufio.NewScanner(f)
-	scn.Buffer(make([]byte, 1<<20), 1<<26)
-	for scn.Scan() {
-		if len(scn.Bytes()) == 0 {
-			continue
-		}
+	vReadLines("VERIF_SCENARIOS", func(line []byte) {
 		var sc vLoadScen
-		kit.Must(json.Unmarshal(scn.Bytes(), &sc))
+		vMust(json.Unmarshal(line, &sc))
 		scens = append(scens, sc)
-	}
-	out := make([]vLoadObs, len(scens))
-	var wg sync.WaitGroup
-	nw := runtime.GOMAXPROCS(0)
-	for w := 0; w < nw; w++ {
-		wg.Add(1)
-		go func(w int) {
-			defer wg.Done()
-			for i := w; i < len(scens); i += nw {
-				out[i] = vLoadRun(scens[i], dom)
-			}
-		}(w)
-	}
-	wg.Wait()
-	ow := kit.NewObsWriter()
-	total := 0
-	for i := range out {
-		ow.Write(out[i])
-		total += out[i].Reps.Runs + out[i].Comb.Runs + 1
-		for _, k := range out[i].Kinds {
-			total += k.Runs
+	})
+	out := make([][]interface{}, len(scens))
+	total := make([]int, len(scens))
+	vParallel(len(scens), func(i int) {
+		o := vLoadRun(scens[i], dom)
+		out[i] = []interface{}{o}
+		total[i] = o.Reps.Runs + o.Comb.Runs + 1
+		for _, k := range o.Kinds {
+			total[i] += k.Runs
 		}
+	})
+	vWriteObs(out)
+	sum := 0
+	for _, x := range total {
+		sum += x
 	}
-	ow.Close()
-	t.Logf("toConfig: %d loads over %d snapshots", total, len(out))
+	t.Logf("toConfig: %d loads over %d snapshots", sum, len(out))
 }
